@@ -188,6 +188,13 @@ func GenRun(t *rapid.T, label string) []model.Point {
 	}
 	n := rapid.IntRange(2, 2100).Draw(t, label+".n")
 	shape := rapid.IntRange(0, 3).Draw(t, label+".shape")
+	if rapid.IntRange(0, 7).Draw(t, label+".huge") == 0 {
+		// one write whose log entry is larger than the log's write buffers
+		// (two 16 KiB buffers in a row): incompressible values, thousands of them
+		n = rapid.IntRange(4200, 6500).Draw(t, label+".hn")
+		shape = 3
+		fd = Fields[2+rapid.IntRange(0, 1).Draw(t, label+".hfd")] // integer or unsigned: all 64 bits vary
+	}
 	seed := rapid.Int64Range(-50, 50).Draw(t, label+".seed")
 	out := make([]model.Point, 0, n)
 	for j := 0; j < n; j++ {
